@@ -14,3 +14,5 @@ impl Clone for Diff { #[verifier::external_body] fn clone(&self) -> (r: Self) en
 //@type base/src/user_model/history.rs QueueDiffs
 #[verifier::external_body] pub struct Model<'a> { _p: core::marker::PhantomData<&'a u8> }
 //@type base/src/user_model/common.rs UserModel
+// the two fields of the deleted worksheet that the DeleteSheet undo arm reads first (D5)
+pub struct WorksheetShell { pub name: String, pub sheet_id: u32 }
